@@ -53,9 +53,10 @@ class S(vlib.Spec):
     def producer_args(self, ctx):
         a = ["-seed", str(ctx.seed), "-tier", ctx.tier, "-out", ctx.out, "-thriftgo", ctx.thriftgo, "-jobs", "4"]
         if ctx.tier == "quick":
-            a += ["-bases", "8", "-per-base", "20"]     # + corpus (43 cases) + the 8 unmodified programs
+            a += ["-bases", "8", "-per-base", "20", "-time-limit", "10s"]     # + corpus (50 cases) + the 8 unmodified programs
         else:
             a += ["-bases", "20", "-per-base", "60"]    # about 1,250 cases / 3,300 process runs (5 min; 10 under heavy load)
+            a += ["-time-limit", "20s"]
         return a
 
     @staticmethod
